@@ -2,10 +2,13 @@ package main
 
 import (
 	"fmt"
+	"go/ast"
+	"go/constant"
 	"go/token"
 	"go/types"
 	"os"
 	"sort"
+	"strconv"
 	"strings"
 
 	"golang.org/x/tools/go/ssa"
@@ -40,7 +43,7 @@ func (e *Engine) VerifyFunction(fn *ssa.Function, con *Contract) (err error) {
 	x.explore()
 	// loop annotations that match no loop: fail closed
 	for _, cl := range con.Clauses {
-		if (cl.Kind == "invariant" || cl.Kind == "decreases") && cl.Loop > len(x.hdrList) {
+		if (cl.Kind == "invariant" || cl.Kind == "decreases" || cl.Kind == "step" || cl.Kind == "exit" || cl.Kind == "trace_step") && cl.Loop > len(x.hdrList) {
 			return fmt.Errorf("%s: contract names loop %d but the function has %d loops (contract-target-missing)", x.short, cl.Loop, len(x.hdrList))
 		}
 	}
@@ -204,6 +207,7 @@ func (x *fnCtx) startAtHeader(st *State, fr *Frame, h *ssa.BasicBlock, ord int) 
 		st.heap = &Heap{m: map[string]*Term{}, epoch: epochCounter}
 		if alloc != nil {
 			st.heap.m["$alloc"] = alloc
+			epochAlloc[epochCounter] = alloc
 		}
 		// immutable / stable fields that this function does not write keep their entry value
 		_ = oldh // immutable / stable components resolve to their entry symbol in Heap.get;
@@ -239,7 +243,7 @@ func (x *fnCtx) startAtHeader(st *State, fr *Frame, h *ssa.BasicBlock, ord int) 
 	}
 	// implicit frame invariant: components outside the modifies clause are unchanged for
 	// objects that existed at entry (checked at every arrival, see arriveAtHeader)
-	if x.con.HasMod && !x.con.ModAll {
+	if x.framed() {
 		for n, cur := range st.heap.m {
 			if (strings.HasPrefix(n, "$") && n != "$maplen") || x.coveredByModifies(n) {
 				continue
@@ -258,12 +262,21 @@ func (x *fnCtx) startAtHeader(st *State, fr *Frame, h *ssa.BasicBlock, ord int) 
 		}
 	}
 	// names: bindings established in dominating blocks, then header phis
+	type bindSrc struct {
+		blk *ssa.BasicBlock
+		val ssa.Value
+	}
+	srcs := map[string]bindSrc{}
+	for _, p := range x.fn.Params {
+		srcs[p.Name()] = bindSrc{nil, p}
+	}
 	for _, d := range domChain(h) {
 		for _, in := range d.Instrs {
 			switch v := in.(type) {
 			case *ssa.Alloc:
 				if v.Comment != "" && v.Comment != "complit" && v.Comment != "varargs" && v.Comment != "makeslice" {
 					fr.names[v.Comment] = nameBind{v: x.getVal(st, fr, v), isAddr: true}
+					delete(srcs, v.Comment)
 				}
 			case *ssa.DebugRef:
 				if obj := v.Object(); obj != nil {
@@ -274,12 +287,48 @@ func (x *fnCtx) startAtHeader(st *State, fr *Frame, h *ssa.BasicBlock, ord int) 
 							}
 						}
 						fr.names[obj.Name()] = nameBind{v: x.getVal(st, fr, v.X), isAddr: v.IsAddr}
+						if v.IsAddr {
+							delete(srcs, obj.Name())
+						} else {
+							srcs[obj.Name()] = bindSrc{d, v.X}
+						}
 					}
 				}
 			case *ssa.Phi:
 				if v.Comment != "" {
 					fr.names[v.Comment] = nameBind{v: x.getVal(st, fr, v)}
+					srcs[v.Comment] = bindSrc{d, v}
 				}
+			}
+		}
+	}
+	// A binding taken from a dominating block is the variable's value at the header only if no
+	// other assignment can reach the header. A variable that is assigned on the way (in the loop
+	// itself, or in a branch before it) normally has a phi that rebinds the name; when the
+	// variable is dead there the phi does not exist, and the name would silently denote a stale
+	// value. Such a name is unknown at the header.
+	hdrPhi := map[string]bool{}
+	for _, in := range h.Instrs {
+		if phi, ok := in.(*ssa.Phi); ok {
+			if phi.Comment != "" {
+				hdrPhi[phi.Comment] = true
+			}
+			continue
+		}
+		break
+	}
+	for name, src := range srcs {
+		if hdrPhi[name] {
+			continue
+		}
+		if x.staleBinding(name, src.blk, src.val, h) {
+			if nb, ok := fr.names[name]; ok && nb.v != nil {
+				nv := freshVal(nb.v.T, fmt.Sprintf("%s.L%d.stale.%s", x.short, ord, name), true)
+				for _, f := range rangeFacts(nv) {
+					st.assume(f)
+				}
+				fr.names[name] = nameBind{v: nv}
+				x.eng.logAbs("%s: name %s is assigned on the way to loop %d without a live phi: unknown at the header", x.short, name, ord)
 			}
 		}
 	}
@@ -464,6 +513,9 @@ func phiName(p *ssa.Phi) string {
 }
 
 func (x *fnCtx) arriveAtHeader(st *State, fr *Frame, h, pred *ssa.BasicBlock, ord int) {
+	if !st.exitChecked && x.hasExit && x.unroll == 0 && !x.collecting {
+		x.checkLoopExit(st, fr, h, nil)
+	}
 	x.evalHeader = h
 	defer func() { x.evalHeader = nil }()
 	// bind phi values for this edge
@@ -530,13 +582,150 @@ func (x *fnCtx) arriveAtHeader(st *State, fr *Frame, h, pred *ssa.BasicBlock, or
 			}
 		}
 	}
-	if x.eng.cfg.Layers["contract"] && x.con.HasMod && !x.con.ModAll && !x.collecting {
+	if x.eng.cfg.Layers["contract"] && x.framed() && !x.collecting {
 		x.checkFrame(st, fr)
 	}
 	if x.eng.cfg.Layers["contract"] {
 		x.checkAllocates(st, fr)
 	}
 	x.lockCheckAtHeader(st, fr, ord, backEdge)
+}
+
+// checkLoopExit: "loop N exit <expr>" clauses. A path that began at N's header leaves the loop when,
+// outside N's blocks, it is about to execute the first instruction that lies behind the loop
+// statement in the source (or arrives at a loop header outside N). A return or panic written
+// inside the loop body is not an exit. prev(e) is e at the start of that last iteration; local
+// names have their values at the exit point, so statements of the body that run on the way out
+// (x = f(x); break) are included.
+func (x *fnCtx) checkLoopExit(st *State, fr *Frame, b *ssa.BasicBlock, in ssa.Instruction) {
+	n := x.fromLoop(st)
+	if n == 0 || x.loopBlocks(x.hdrList[n-1])[b] {
+		return
+	}
+	if in != nil {
+		end := x.loopEnd(n)
+		if p := in.Pos(); !p.IsValid() || p <= end {
+			return
+		}
+	}
+	st.exitChecked = true
+	for _, cl := range x.con.Clauses {
+		if cl.Kind != "exit" || cl.Loop != n || !cl.appliesTo(x.eng.prop) {
+			continue
+		}
+		env := &specEnv{x: x, st: st, heap: st.heap, old: fr.oldHeap, names: fr.names, fr: fr}
+		g := x.evalClause(env, cl.Expr, cl.Text)
+		x.addVC(st, x.short, "exit", cl.Loop, fmt.Sprintf("%d", cl.Ord), g, fmt.Sprintf("loop %d exit condition: %s", cl.Loop, cl.Text), cl.Line)
+	}
+}
+
+// staleBinding: can an assignment to the variable called name, other than the one that
+// established the binding (value val in dominating block blk; blk == nil: a parameter), reach
+// header h? Every path to h passes blk, so another assignment matters exactly when its block
+// is reachable from blk and reaches h.
+func (x *fnCtx) staleBinding(name string, blk *ssa.BasicBlock, val ssa.Value, h *ssa.BasicBlock) bool {
+	// reaches: is there a path from a successor of b to h that does not pass blk?
+	reaches := func(b *ssa.BasicBlock) bool {
+		seen := map[*ssa.BasicBlock]bool{}
+		stack := append([]*ssa.BasicBlock(nil), b.Succs...)
+		for len(stack) > 0 {
+			c := stack[len(stack)-1]
+			stack = stack[:len(stack)-1]
+			if seen[c] || c == blk {
+				continue
+			}
+			if c == h {
+				return true
+			}
+			seen[c] = true
+			stack = append(stack, c.Succs...)
+		}
+		return false
+	}
+	same := func(a, b ssa.Value) bool {
+		if a == b {
+			return true
+		}
+		ca, ok1 := a.(*ssa.Const)
+		cb, ok2 := b.(*ssa.Const)
+		if ok1 && ok2 && types.Identical(ca.Type(), cb.Type()) {
+			if ca.Value == nil || cb.Value == nil {
+				return ca.Value == nil && cb.Value == nil
+			}
+			return constant.Compare(ca.Value, token.EQL, cb.Value)
+		}
+		return false
+	}
+	for _, b := range x.fn.Blocks {
+		if b == blk {
+			continue
+		}
+		hit := false
+		for _, in := range b.Instrs {
+			switch v := in.(type) {
+			case *ssa.DebugRef:
+				if obj := v.Object(); obj != nil && obj.Name() == name && !v.IsAddr {
+					if _, isVar := obj.(*types.Var); isVar && !same(v.X, val) {
+						hit = true
+					}
+				}
+			case *ssa.Phi:
+				if v.Comment == name && b != h && !same(v, val) {
+					hit = true
+				}
+			}
+		}
+		if hit && reaches(b) {
+			return true
+		}
+	}
+	return false
+}
+
+// fromLoop: the ordinal of the loop at whose header the path began (0: function entry)
+func (x *fnCtx) fromLoop(st *State) int {
+	if !strings.HasPrefix(st.from, "loop ") {
+		return 0
+	}
+	n, _ := strconv.Atoi(st.from[5:])
+	if n < 1 || n > len(x.hdrList) {
+		return 0
+	}
+	return n
+}
+
+// loopEnd: end position of the n-th for/range statement of the function in source order. The
+// loop headers are numbered by block index, which is source order for structured loops; a
+// function whose header count differs from its loop statement count (goto loops, loops removed
+// as dead) cannot carry exit clauses.
+func (x *fnCtx) loopEnd(n int) token.Pos {
+	if x.loopEnds == nil {
+		var body ast.Node
+		switch f := x.fn.Syntax().(type) {
+		case *ast.FuncDecl:
+			body = f.Body
+		case *ast.FuncLit:
+			body = f.Body
+		}
+		if body == nil {
+			x.fail("exit clause: no syntax for %s", x.short)
+		}
+		ast.Inspect(body, func(nd ast.Node) bool {
+			switch s := nd.(type) {
+			case *ast.FuncLit:
+				return false
+			case *ast.ForStmt:
+				x.loopEnds = append(x.loopEnds, s.End())
+			case *ast.RangeStmt:
+				x.loopEnds = append(x.loopEnds, s.End())
+			}
+			return true
+		})
+		if len(x.loopEnds) != len(x.hdrList) {
+			x.fail("exit clause: %d loop statements but %d loop headers in %s", len(x.loopEnds), len(x.hdrList), x.short)
+		}
+	}
+	return x.loopEnds[n-1]
 }
 
 // checkPost: postconditions, frame, trace and lock clauses at a normal return of the top frame.
@@ -575,7 +764,7 @@ func (x *fnCtx) checkPost(st *State, fr *Frame, res []*Val) {
 			x.addVC(st, x.short, "post", cl.Ord, "", g, "ensures "+cl.Text, cl.Line)
 		}
 		// frame: heap arrays changed must be covered by modifies
-		if x.con.HasMod && !x.con.ModAll && !x.collecting {
+		if x.framed() && !x.collecting {
 			x.checkFrame(st, fr)
 		}
 		x.checkAllocates(st, fr)
@@ -641,7 +830,27 @@ func (x *fnCtx) checkFrame(st *State, fr *Frame) {
 	}
 }
 
+// framed: the function has a frame to check: an explicit modifies list, or `keeps stable`
+// (everything may change except the stable / private fields of pre-existing objects)
+func (x *fnCtx) framed() bool {
+	return (x.con.HasMod && !x.con.ModAll) || x.con.KeepStable
+}
+
+// matchesComponent: name is one of the listed heap components (or a part of one)
+func matchesComponent(list []string, name string) bool {
+	for _, m := range list {
+		if name == m || strings.HasPrefix(name, m+"#") || strings.HasPrefix(name, m+".") || (strings.HasSuffix(m, ":") && strings.HasPrefix(name, m)) {
+			return true
+		}
+	}
+	return false
+}
+
 func (x *fnCtx) coveredByModifies(name string) bool {
+	if x.con.KeepStable && (x.con.ModAll || !x.con.HasMod) {
+		_, stable := stableOwner[name]
+		return !stable || matchesComponent(x.con.KeepExcept, name)
+	}
 	for _, m := range x.con.Modifies {
 		if name == m || strings.HasPrefix(name, m+"#") || strings.HasPrefix(name, m+".") || (strings.HasSuffix(m, ":") && strings.HasPrefix(name, m)) {
 			return true
